@@ -40,6 +40,7 @@ type Contract struct {
 	Trusted  bool
 	Pure     bool
 	NoFrame  bool
+	CutsOnly bool // only the `before` cuts of this function are obligations; everything else is assumed
 	File     string
 	Line     int
 	Bound    bool
@@ -70,7 +71,7 @@ type ContractSet struct {
 	tinvs map[string][]*Clause // pkgpath + "." + type name -> invariants over `self`
 }
 
-var clauseRe = regexp.MustCompile(`^(requires|ensures|defines|use|before|modifies|inline|trusted|pure|noframe|loop|let|func|spec|replay|type|lemma)\b\s*(.*)$`)
+var clauseRe = regexp.MustCompile(`^(requires|ensures|defines|use|before|modifies|inline|trusted|pure|noframe|cutsonly|loop|let|func|spec|replay|type|lemma)\b\s*(.*)$`)
 
 func loadContracts(repo string) (*ContractSet, error) {
 	cs := &ContractSet{byKey: map[string]*Contract{}, specs: map[string]*SpecFunc{}, tinvs: map[string][]*Clause{}}
@@ -290,6 +291,8 @@ func (cs *ContractSet) parseFile(repo, path string) error {
 			cur.Pure = true
 		case "noframe":
 			cur.NoFrame = true
+		case "cutsonly":
+			cur.CutsOnly = true
 		case "replay":
 			cur.Replay = append(cur.Replay, rest)
 		}
